@@ -173,5 +173,72 @@ func genG16(repo string, w *Out) error {
 			return fmt.Errorf("Apply/%s: body is not %q", lab, exp)
 		}
 	}
+	return genG16Wiring(repo, f, w)
+}
+
+// genG16Wiring extracts, as rendered source text, the statements that decide which
+// rule list reaches which kind of message and in which order rules are applied.
+func genG16Wiring(repo string, hf *File, w *Out) error {
+	var wiring []string
+	for _, fn := range []string{"Headers.ModifyRequest", "Headers.ModifyResponse"} {
+		fd, err := hf.Func(fn)
+		if err != nil {
+			return err
+		}
+		wiring = append(wiring, fn+": "+hf.Src(fd.Body))
+	}
+	rf, err := Parse(repo, "command/run/run.go")
+	if err != nil {
+		return err
+	}
+	cf, err := rf.Func("command.configureHeadersModifiers")
+	if err != nil {
+		return err
+	}
+	wiring = append(wiring, "configureHeadersModifiers: "+rf.Src(cf.Body))
+	// flag -> field binding lines in run.go
+	var binds []string
+	ast.Inspect(rf.AST, func(x ast.Node) bool {
+		if ce, ok := x.(*ast.CallExpr); ok {
+			src := rf.Src(ce)
+			for _, pfx := range []string{"bind.ConnectHeaders(", "bind.RequestHeaders(", "bind.ResponseHeaders(", "bind.ProxyHeaders("} {
+				if strings.HasPrefix(src, pfx) {
+					binds = append(binds, src)
+				}
+			}
+		}
+		return true
+	})
+	wiring = append(wiring, binds...)
+	// flag names in bind/flag.go
+	bf, err := Parse(repo, "bind/flag.go")
+	if err != nil {
+		return err
+	}
+	for _, fn := range []string{"ConnectHeaders", "RequestHeaders", "ResponseHeaders"} {
+		fd, err := bf.Func(fn)
+		if err != nil {
+			return err
+		}
+		var name, parser string
+		ast.Inspect(fd.Body, func(x ast.Node) bool {
+			ce, ok := x.(*ast.CallExpr)
+			if !ok {
+				return true
+			}
+			src := bf.Src(ce.Fun)
+			if (src == "fs.Var" || src == "fs.VarP") && len(ce.Args) >= 2 {
+				if s, ok := StringLit(ce.Args[1]); ok {
+					name = s
+				}
+				if inner, ok := ce.Args[0].(*ast.CallExpr); ok && len(inner.Args) >= 3 {
+					parser = bf.Src(inner.Args[2])
+				}
+			}
+			return true
+		})
+		wiring = append(wiring, fmt.Sprintf("bind.%s: flag %q parsed by %s", fn, name, parser))
+	}
+	w.DefStrList("wiring", wiring)
 	return nil
 }
